@@ -21,6 +21,18 @@ CACHE_TS = 1_600_000_000
 # the fake repository of git cases: c1 <- c2 (HEAD), c3 is a side commit on c1 that is NOT an ancestor of HEAD
 FAKE_COMMITS = {"c1" * 20: [], "c2" * 20: ["c1" * 20], "c3" * 20: ["c1" * 20]}
 FAKE_REFS = {"tag-c1": "c1" * 20, "tag-c2": "c2" * 20, "main": "c2" * 20, "HEAD": "c2" * 20}
+# case["history"] == "merge": c0 <- a1 (mainline) and c0 <- f1 <- f2 <- f3 (feature), merged into ee = HEAD (first parent a1).
+# Commits between HEAD and f3: {ee, a1} (2); between HEAD and a1: {ee, f1, f2, f3} (4): f3 is the closer one although a1 is
+# one first-parent step away.
+MERGE_COMMITS = {"c0" * 20: [], "a1" * 20: ["c0" * 20], "f1" * 20: ["c0" * 20], "f2" * 20: ["f1" * 20], "f3" * 20: ["f2" * 20],
+                 "ee" * 20: ["a1" * 20, "f3" * 20]}
+
+
+def history_of(case):
+    """(commits, head, refs) of the fake repository of a git case."""
+    if case.get("history") == "merge":
+        return MERGE_COMMITS, "ee" * 20, {"main": "ee" * 20}
+    return FAKE_COMMITS, "c2" * 20, {k: v for k, v in FAKE_REFS.items() if k != "HEAD"}
 
 
 def cached_versions(case, k):
@@ -46,6 +58,11 @@ def make_scenario(case):
     kinds = case["kinds"]
     pars = case.get("pars") or [False] * n
     pkgs = case.get("pkgs") or [""] * n
+    if case.get("dupdep"):
+        # node lists one of its dependencies twice, the second time in the other (fully qualified / relative) spelling
+        node, dep = case["dupdep"]
+        g = [tuple(d) for d in g]
+        g[node] = tuple(list(g[node]) + [("dup", dep)])
     files, ids = graphs.render_graph(g, kinds, pars, pkgs,
                                      args={int(k): v for k, v in (case.get("args") or {}).items()},
                                      options={int(k): v for k, v in (case.get("options") or {}).items()})
@@ -62,6 +79,13 @@ def make_scenario(case):
                 b["status"] = vkmod.st_signal(f[1])
             elif f[0] == "launch":
                 b["launch_fail"] = True
+            elif f[0] == "mkdir":
+                # the task's output directory cannot be created: a regular file sits where cond-out/<pkg>/tN.task should go
+                # (for experiments: where the package directory should go is not possible in the root, so block the parent of a sub-path)
+                if kinds[i] == "exp":
+                    b["launch_fail"] = True   # versioned directory names are not known in advance: use the spawn-level failure
+                else:
+                    pre_tree[os.path.join("cond-out", pkgs[i], "t%d.task" % i)] = "a regular file in the way\n"
             elif f[0] == "conflict":
                 # a regular file where the combine task wants to put its link to its first dep with output
                 dep = [j for j in g[i] if kinds[j] in ("cmd", "exp", "combine")][0]
@@ -98,8 +122,8 @@ def make_scenario(case):
                       "COND_NAME": "outer-task", "COND_SLOT": "7"}
     if case.get("git"):
         # two commits c1 <- c2 (HEAD)
-        scn["git"] = {"commits": dict(FAKE_COMMITS), "head": "c2" * 20, "is_repo": True,
-                      "dirty": bool(case.get("dirty")), "refs": {k: v for k, v in FAKE_REFS.items() if k != "HEAD"}}
+        commits, head, refs = history_of(case)
+        scn["git"] = {"commits": dict(commits), "head": head, "is_repo": True, "dirty": bool(case.get("dirty")), "refs": dict(refs)}
     return scn
 
 
@@ -203,7 +227,8 @@ def selected_version(case, k):
     if not vs:
         return None
     if case.get("git"):
-        return ref.select_version(vs, "git", FAKE_COMMITS, "c2" * 20)
+        commits, head, _ = history_of(case)
+        return ref.select_version(vs, "git", commits, head)
     return ref.select_version(vs, "nogit")
 
 
@@ -218,8 +243,9 @@ def effective_cached(case):
         if sel is None:
             continue
         if case.get("at_least"):
-            target = FAKE_REFS.get(case["at_least"], case["at_least"])
-            if ref.at_least_rerun(sel, FAKE_COMMITS, target):
+            commits, head, refs = history_of(case)
+            target = dict(refs, HEAD=head).get(case["at_least"], case["at_least"])
+            if ref.at_least_rerun(sel, commits, target):
                 continue
         out.add(int(k))
     return out
